@@ -252,12 +252,14 @@ def run(ctx):
     def info(name, src, typ="file"):
         return Obj(None, {"name": name, "src": src, "type": typ, "context": "ctx", "instance": NodeVal("instance", attrs={"id": name, "src": src})}, name=f"info:{name}:{src}")
 
-    def run_gi(pull, choices, last_saved=False):
+    def run_gi(pull, choices, last_saved=False, from_file=None):
         q1, q2 = _mk(ctx, qcls, "q1", type="text"), _mk(ctx, mq, "q2", type="select one")
-        per = {"q1": pull.get("q1", []), "q2": pull.get("q2", [])}
-        hooks = {"fnname:node": node_hook, "fnname:iter_descendants": lambda i, a, k, n: [q1, q2],
+        q3 = _mk(ctx, mq, "q3", type="select one")
+        per = {"q1": pull.get("q1", []), "q2": pull.get("q2", []), "q3": []}
+        ff_ = from_file or {}
+        hooks = {"fnname:node": node_hook, "fnname:iter_descendants": lambda i, a, k, n: [q1, q2, q3] if ff_ else [q1, q2],
                  "fnname:_generate_pulldata_instances": lambda i, a, k, n: GenList(per[k.get("element", a[-1] if a else None).name]),
-                 "fnname:_generate_from_file_instances": lambda i, a, k, n: None,
+                 "fnname:_generate_from_file_instances": lambda i, a, k, n: ff_.get(k.get("element", a[-1] if a else None).name),
                  "fnname:_generate_last_saved_instance": lambda i, a, k, n: last_saved,
                  "fnname:_get_last_saved_instance": lambda i, a, k, n: info("__last-saved", "jr://instance/last-saved", "instance"),
                  "fnname:_generate_static_instances": lambda i, a, k, n: info(k["list_name"], None, "choice")}
@@ -282,6 +284,14 @@ def run(ctx):
         r3.fail("_generate_instances[choice list vs file clash]", "rejected with PyXFormError", gi.loc())
     except Raised as r:
         r3.check("PyXFormError" in r.mro, "_generate_instances[choice list vs file clash]", "a choice list whose name clashes with an external instance is rejected", gi.loc())
+    # two selects reading different files that would get the same instance id (same stem, other extension)
+    try:
+        out = run_gi({}, None, from_file={"q2": info("cities", "jr://file-csv/cities.csv"), "q3": info("cities", "jr://file/cities.xml")})
+        r3.fail("_generate_instances[two files with one stem]", "rejected with PyXFormError", gi.loc(), why_fail=repr([n.attrs for n in out]))
+    except Raised as r:
+        r3.check("PyXFormError" in r.mro and "cities" in str(r.exc_args[0]), "_generate_instances[two files with one stem]", "cities.csv and cities.xml would share the id `cities`: rejected with PyXFormError naming it", gi.loc())
+    out = run_gi({}, None, from_file={"q2": info("cities", "jr://file-csv/cities.csv"), "q3": info("cities", "jr://file-csv/cities.csv")})
+    r3.check([n.attrs.get("id") for n in out] == ["cities"], "_generate_instances[two selects, one file]", "the shared file is declared once", gi.loc(), why_fail=repr([n.attrs for n in out]))
     ve = scls.methods["_validate_external_instances"]
     it = ctx.interp("C09.R3")
     for desc, lst, expect in (("unique", [info("x", "u", "external"), info("y", "v", "external")], False), ("duplicate", [info("x", "u", "external"), info("x", "u", "external")], True)):
